@@ -2,7 +2,9 @@ package main
 
 import (
 	"bufio"
+	"bytes"
 	"context"
+	"crypto/tls"
 	"encoding/json"
 	"errors"
 	"fmt"
@@ -10,6 +12,7 @@ import (
 	"net"
 	"net/http"
 	"os"
+	"os/exec"
 	"strconv"
 	"strings"
 	"sync"
@@ -59,12 +62,19 @@ type scenario struct {
 	// kind of context handed to the runner: cancel (WithCancel) | dl_cancel (WithTimeout, cancelled by hand)
 	// | dl_expire (WithTimeout that expires at the cancel step) | dl_child (WithCancel child of such a context)
 	ctxKind string
+	// http | tls (HTTP/1.1 over TLS, self-signed certificate made at run time) | tls_h2 (HTTP/2 over TLS)
+	// | h2c (use_h2c on, HTTP/1.1 clients through the h2c handler)
+	transport string
+	// "" | emfile: the listening socket cannot be created (descriptor table full, in a child process)
+	listenErr string
+	// finding probe only: the raw upgrade client is used although use_h2c is on
+	rawOverH2c bool
 	// ServiceConfig timeouts handed to the runner (0 = unset)
 	idle, read, write, readHeader time.Duration
 }
 
 func (s *scenario) cfgString() string {
-	return fmt.Sprintf("ctx_aware=%v idle=%v read=%v write=%v read_header=%v ctx=%s", s.ctxAware, s.idle, s.read, s.write, s.readHeader, s.ctxKind)
+	return fmt.Sprintf("ctx_aware=%v idle=%v read=%v write=%v read_header=%v ctx=%s", s.ctxAware, s.idle, s.read, s.write, s.readHeader, s.ctxKind) + " transport=" + s.transport + map[bool]string{true: " listen_error=" + s.listenErr, false: ""}[s.listenErr != ""]
 }
 
 // the longest of the small timeouts (write excluded: it is only set small when no request is gated)
@@ -137,6 +147,7 @@ type reqSpec struct {
 }
 
 type world struct {
+	scheme   string
 	ctxAware bool
 	clock    atomic.Int64
 	mu       sync.Mutex
@@ -341,6 +352,12 @@ func (w *world) runRunner(ctx context.Context, s *scenario, port int, run runFun
 	sc.Address = "127.0.0.1"
 	sc.Port = port
 	sc.IdleTimeout, sc.ReadTimeout, sc.WriteTimeout, sc.ReadHeaderTimeout = s.idle, s.read, s.write, s.readHeader
+	switch s.transport {
+	case "tls", "tls_h2":
+		sc.TLS = &config.TLS{PublicKey: certFile, PrivateKey: keyFile}
+	case "h2c":
+		sc.UseH2C = true
+	}
 	switch flavor {
 	case "Plain":
 		return classify(run(ctx, sc, muxMid{w}.Handler(w.plainHandler())))
@@ -368,7 +385,7 @@ func (w *world) runRunner(ctx context.Context, s *scenario, port int, run runFun
 // one request attempt. -> "full" | "refused" | "fail: ..."
 func (w *world) attempt(cl *http.Client, flavor string, port, id int) string {
 	sp := w.spec(id)
-	url := fmt.Sprintf("http://127.0.0.1:%d/t%s/r?id=%d", port, w.token, id)
+	url := fmt.Sprintf("%s://127.0.0.1:%d/t%s/r?id=%d", w.scheme, port, w.token, id)
 	resp, err := cl.Get(url)
 	if err != nil {
 		if errors.Is(err, syscall.ECONNREFUSED) {
@@ -509,6 +526,20 @@ func (w *world) recOutcome(id int, outcome string, refusedAsEvent bool) {
 	}
 }
 
+// the self-signed certificate of the TLS scenarios (made by main in the output directory)
+var certFile, keyFile string
+
+func clientTLS() *tls.Config {
+	return &tls.Config{InsecureSkipVerify: true, NextProtos: nil}
+}
+
+func schemeOf(s *scenario) string {
+	if s.transport == "tls" || s.transport == "tls_h2" {
+		return "https"
+	}
+	return "http"
+}
+
 type runFunc = func(context.Context, config.ServiceConfig, http.Handler) error
 
 // a group: one or several servers run side by side; with shared set, ONE runner func obtained
@@ -526,6 +557,9 @@ type group struct {
 }
 
 func runGroup(g *group, members []*scenario) []*result {
+	if members[0].listenErr == "emfile" {
+		return []*result{runEmfile(members[0])}
+	}
 	ports, stalls, longer := 0, 0, 0
 	for ports < 50 {
 		res, retry, early := runGroupOnce(g, members, (80*time.Millisecond)<<longer)
@@ -629,7 +663,7 @@ type inst struct {
 type ctxKey struct{}
 
 func newInst(s *scenario, run runFunc, expiry time.Duration) *inst {
-	w := &world{ctxAware: s.ctxAware, token: fmt.Sprintf("%d-%d", os.Getpid(), tokenCounter.Add(1)), specs: map[int]*reqSpec{}, clients: map[string]string{}}
+	w := &world{scheme: schemeOf(s), ctxAware: s.ctxAware, token: fmt.Sprintf("%d-%d", os.Getpid(), tokenCounter.Add(1)), specs: map[int]*reqSpec{}, clients: map[string]string{}}
 	for id, size := range s.sizes {
 		sp := &reqSpec{mid: s.mid[id], id: id, size: size, split: s.split[id], gate: make(chan struct{}), entered: make(chan struct{}), finished: make(chan struct{})}
 		if id >= 40 {
@@ -657,14 +691,23 @@ func newInst(s *scenario, run runFunc, expiry time.Duration) *inst {
 		w.rec("ListenFail", "ListenFail")
 	}
 	in.addr = fmt.Sprintf("127.0.0.1:%d", in.port)
-	in.tr = &http.Transport{DisableKeepAlives: !s.keepalive, MaxIdleConns: 100, MaxIdleConnsPerHost: 100}
+	in.tr = &http.Transport{DisableKeepAlives: !s.keepalive, MaxIdleConns: 100, MaxIdleConnsPerHost: 100, TLSClientConfig: clientTLS(), ForceAttemptHTTP2: s.transport == "tls_h2"}
 	in.cl = &http.Client{Transport: in.tr, Timeout: clientTimeout}
 	// attempts between the cancellation and the return always use a new connection: a request sent
 	// on an idle keep-alive connection while Shutdown closes idle connections is outside C19 (net/http
 	// may run its handler and drop the answer; Go clients retry such requests)
-	in.trFresh = &http.Transport{DisableKeepAlives: true}
+	in.trFresh = &http.Transport{DisableKeepAlives: true, TLSClientConfig: clientTLS(), ForceAttemptHTTP2: s.transport == "tls_h2"}
 	in.clFresh = &http.Client{Transport: in.trFresh, Timeout: clientTimeout}
-	switch s.ctxKind {
+	kind := s.ctxKind
+	hasCancel := false
+	for _, st := range s.script {
+		hasCancel = hasCancel || st.op == "cancel"
+	}
+	if !hasCancel && (kind == "dl_expire" || kind == "dl_child") {
+		// no cancel step: an expiry would be a cancellation nobody stamped; the deadline stays far away
+		kind = "dl_cancel"
+	}
+	switch kind {
 	case "dl_cancel":
 		in.ctx, in.cancel = context.WithTimeout(context.Background(), 10*time.Minute)
 	case "dl_expire":
@@ -760,7 +803,7 @@ func (in *inst) do(st step) bool {
 		fin := make(chan struct{})
 		in.fins[id] = fin
 		try := func() string {
-			if s.h2c[id] {
+			if s.h2c[id] && (s.transport == "http" || s.rawOverH2c) {
 				return w.attemptRaw(s.flavor, in.port, id)
 			}
 			return w.attempt(in.cl, s.flavor, in.port, id)
@@ -844,6 +887,13 @@ func (in *inst) do(st step) bool {
 		c, err := net.DialTimeout("tcp", in.addr, 10*time.Second)
 		if err == nil {
 			c.SetDeadline(time.Now().Add(clientTimeout))
+			if w.scheme == "https" {
+				tc := tls.Client(c, clientTLS())
+				err = tc.Handshake()
+				c = tc
+			}
+		}
+		if err == nil {
 			_, err = fmt.Fprintf(c, "GET /t%s/r?id=%d HTTP/1.1\r\nHost: %s\r\nX-Part: one\r\n", w.token, st.r, in.addr)
 		}
 		if err != nil {
@@ -951,4 +1001,118 @@ func bucket(n int) string {
 		return "4-10"
 	}
 	return ">10"
+}
+
+// ---- a listener that cannot be started because the socket cannot be created (EMFILE) ----
+// The runner is called in a child process (this binary again) whose descriptor table is full.
+// The child reports what the runner returned, or that it was still blocked after the bound;
+// the parent kills it after a longer bound, so the generator never hangs.
+
+const emfileBound = 8 * time.Second
+
+func runEmfile(s *scenario) *result {
+	stalls := 0
+	for {
+		res := runEmfileOnce(s)
+		if len(res.notes) > 0 && stalls < 2 && stallCount.Load() < maxStalls {
+			stalls++
+			stallCount.Add(1)
+			continue
+		}
+		res.stallRetries = stalls
+		return res
+	}
+}
+
+func runEmfileOnce(s *scenario) *result {
+	res := &result{clients: map[string]string{}, rv: "none"}
+	res.trace = append(res.trace, event{1, "ListenFail", "ListenFail"})
+	b := bound(emfileBound)
+	cmd := exec.Command(os.Args[0])
+	cmd.Env = append(os.Environ(), fmt.Sprintf("C19_CHILD=emfile|%s|%d", s.flavor, b.Milliseconds()))
+	var outb bytes.Buffer
+	cmd.Stdout = &outb
+	if err := cmd.Start(); err != nil {
+		res.notes = append(res.notes, "child: "+err.Error())
+		return res
+	}
+	done := make(chan error, 1)
+	go func() { done <- cmd.Wait() }()
+	select {
+	case <-done:
+	case <-time.After(b + 10*time.Second):
+		cmd.Process.Kill()
+		<-done
+		res.notes = append(res.notes, "child killed")
+	}
+	for _, line := range strings.Split(outb.String(), "\n") {
+		f := strings.SplitN(line, "\t", 3)
+		switch {
+		case f[0] == "RETURN" && len(f) == 3:
+			res.rv, res.errText = f[1], f[2]
+			res.trace = append(res.trace, event{2, emit.App("RunnerReturn", f[1]), "RunnerReturn(" + f[1] + ")"})
+		case f[0] == "BLOCKED":
+			res.notes = append(res.notes, "runner did not return (descriptor table full)")
+		case f[0] == "SETUP" && len(f) >= 2:
+			res.notes = append(res.notes, "child setup: "+f[1])
+		}
+	}
+	if res.rv == "none" && len(res.notes) == 0 {
+		res.notes = append(res.notes, "child said nothing: "+outb.String())
+	}
+	return res
+}
+
+// childMain runs in the child process (C19_CHILD=emfile|flavor|bound_ms)
+func childMain(spec string) {
+	f := strings.Split(spec, "|")
+	if len(f) != 3 || f[0] != "emfile" {
+		fmt.Println("SETUP\tbad spec")
+		os.Exit(0)
+	}
+	ms, _ := strconv.Atoi(f[2])
+	gin.SetMode(gin.ReleaseMode)
+	// a port, and the network poller initialised while descriptors are still available
+	ln, err := net.Listen("tcp", "127.0.0.1:0")
+	if err != nil {
+		fmt.Println("SETUP\t" + err.Error())
+		os.Exit(0)
+	}
+	port := ln.Addr().(*net.TCPAddr).Port
+	ln.Close()
+	var lim syscall.Rlimit
+	syscall.Getrlimit(syscall.RLIMIT_NOFILE, &lim)
+	lim.Cur = 64
+	if err := syscall.Setrlimit(syscall.RLIMIT_NOFILE, &lim); err != nil {
+		fmt.Println("SETUP\t" + err.Error())
+		os.Exit(0)
+	}
+	var held []*os.File
+	for {
+		fd, err := os.Open("/dev/null")
+		if err != nil {
+			break
+		}
+		held = append(held, fd)
+		if len(held) > 100000 {
+			fmt.Println("SETUP\tdescriptor limit not effective")
+			os.Exit(0)
+		}
+	}
+	s := &scenario{flavor: f[1], transport: "http", ctxKind: "cancel", sizes: map[int]int{}, split: map[int]bool{}, h2c: map[int]bool{}, mid: map[int]bool{}}
+	w := &world{scheme: "http", token: "child", specs: map[int]*reqSpec{}, clients: map[string]string{}}
+	type ret struct{ k, e string }
+	done := make(chan ret, 1)
+	go func() {
+		k, e := w.runRunner(context.Background(), s, port, nil)
+		done <- ret{k, e}
+	}()
+	select {
+	case r := <-done:
+		fmt.Printf("RETURN\t%s\t%s\n", r.k, strings.ReplaceAll(r.e, "\n", " "))
+	case <-time.After(time.Duration(ms) * time.Millisecond):
+		fmt.Println("BLOCKED")
+	}
+	_ = held
+	os.Exit(0)
 }
